@@ -60,6 +60,9 @@ type PFCPConn struct {
 	// channel to signal PFCPNode on exit
 	done     chan<- string
 	shutdown chan struct{}
+	// shutdownOnce guards Shutdown(), which can be triggered concurrently
+	// (release request, read timeout, heartbeat failure, node stop)
+	shutdownOnce sync.Once
 
 	metrics.InstrumentPFCP
 
@@ -231,6 +234,10 @@ func (pConn *PFCPConn) Serve() {
 
 // Shutdown stops connection backing PFCPConn.
 func (pConn *PFCPConn) Shutdown() {
+	pConn.shutdownOnce.Do(pConn.doShutdown)
+}
+
+func (pConn *PFCPConn) doShutdown() {
 	close(pConn.shutdown)
 
 	if pConn.hbCtxCancel != nil {
